@@ -14,7 +14,7 @@ from . import apprig, ncp_netinfo, vloop
 from .c04 import pmap
 from .core import Ctx
 
-INVS = ("CompletedOk", "SecurityStateExactOk", "StoreHoldsOk", "RoundTripOk", "OrderOkOk", "NodeAddressOk", "TcAddressOk")
+INVS = ("CompletedOk", "SecurityStateExactOk", "StoreHoldsOk", "RoundTripOk", "OrderOkOk", "NodeAddressOk", "TcAddressOk", "ReadMatchesStoreOk")
 WELL_KNOWN = b"ZigBeeAlliance09"
 # EmberInitialSecurityBitmask, pinned from the EmberZNet headers
 F_PRECONFIGURED_KEY, F_NETWORK_KEY, F_TC_EUI64, F_HASHED = 0x0100, 0x0200, 0x0040, 0x0084
@@ -39,7 +39,8 @@ def gen_case(ver, rng: random.Random):
     while len(children) < nc:
         e = rb(8)
         if e not in [c[0] for c in children]:
-            children.append((e, rng.randrange(1, 0xFFF7), rng.random() < 0.85))
+            # the network address may also be one of the reserved values (discovery active / unknown): it is stored and read back like any other
+            children.append((e, rng.choice((0xFFFC, 0xFFFD)) if rng.random() < 0.2 else rng.randrange(1, 0xFFF7), rng.random() < 0.85))
     return {
         "ver": ver, "rewritable": rng.random() < 0.5,
         "pan": rng.randrange(1, 0xFFFF), "epan": rb(8), "channel": rng.randrange(11, 27), "mask": rng.choice((0x07FFF800, 1 << 15, (1 << 20) | (1 << 25))),
@@ -54,6 +55,7 @@ def gen_case(ver, rng: random.Random):
         "twice": rng.random() < 0.35,          # the same backup is restored a second time
         "keys": [(rb(16), p) for p in partners],
         "children": children,
+        "dropChild": rng.random() < 0.6,      # afterwards the child in the lowest slot leaves and the settings are read once more
     }
 
 
@@ -146,6 +148,18 @@ def run_case(case):
                      "linkKeys": [{"key": list(k.key.serialize()), "partner": list(k.partner_ieee.serialize())} for k in x.key_table],
                      "children": [{"eui": list(e.serialize()), "nwk": int(x.nwk_addresses.get(e, 0xFFFF))} for e in x.children],
                      "ieee": list(app.state.node_info.ieee.serialize()), "tcPartner": list(x.tc_link_key.partner_ieee.serialize())}
+        second, r2c, st2c = 0, [], []
+        if completed and case.get("dropChild") and len(store.children) >= 2:
+            del store.children[min(store.children)]          # a hole below occupied slots
+            t3 = asyncio.ensure_future(app.load_network_info(load_devices=True))
+            ok = await apprig.run_until_done(loop, [t3], limit_s=600)
+            if not ok or t3.exception() is not None:
+                completed, exc = 0, ("hang" if not t3.done() else "load2:" + type(t3.exception()).__name__)
+            else:
+                x = app.state.network_info
+                second = 1
+                r2c = [{"eui": list(e.serialize()), "nwk": int(x.nwk_addresses.get(e, 0xFFFF))} for e in x.children]
+                st2c = [{"eui": list(e), "nwk": n} for (e, n, _t) in store.children.values()]
         # the settings as effectively supplied (write_network_info adjusts addresses it cannot write and fills in a hashed key)
         hs_w = ni.stack_specific.get("ezsp", {}).get("hashed_tclk")
         w = {"pan": case["pan"], "epan": case["epan"], "channel": case["channel"], "mask": str(case["mask"]), "updateId": case["updateId"],
@@ -159,7 +173,7 @@ def run_case(case):
              "canSet": int((bool(case["rewritable"]) and "getTokenData" in ncp.cmds and "setTokenData" in ncp.cmds)     # token commands exist from version 9 on
                            or (bool(case.get("burn")) and can_burn0))}
         return [{"a": "run", "ver": ver, "rewritable": int(case["rewritable"]), "twice": int(bool(case.get("twice"))), "w": w, "sec": sec, "st": st, "r": r, "order": order,
-                 "completed": completed, "exc": exc}]
+                 "completed": completed, "exc": exc, "second": second, "r2children": r2c, "st2children": st2c}]
     return vloop.run(main)
 
 
